@@ -70,6 +70,16 @@ class C02(Prop):
                     v1 = r.choice([v0.replace(b"\r\n", b"\n"), v0.replace(b"\r\n", b"\n", 1), v0.replace(b"\r", b""), v0.replace(b"\r\n", b"\r")])
                     if r.chance(1, 2):
                         v0, v1 = v1, v0
+                if api == "snap" and r.chance(1, 10):
+                    # a line of 4096 bytes and more (a reader's default buffer) against the same bytes broken at the buffer boundary,
+                    # and against a text cut where a run of dashes crosses it
+                    n_ = r.choice([4096, 4097, 5000, 8192, 9000])
+                    ch = r.choice([b"x", b"ab", b"k: a"])
+                    L = (ch * n_)[:n_]
+                    v0, v1 = r.choice([(L, L[:4096] + b"\n" + L[4096:]), (b"first\n" + b"x" * 4096 + b"---\nlast line", b"first\n" + b"x" * 4096),
+                                       (b"k: " + b"a" * 4093 + b" tail", b"k: " + b"a" * 4093 + b"\n tail")])
+                    if r.chance(1, 2) and b"---\n" not in v0:
+                        v0, v1 = v1, v0
                 if api == "snap" and r.chance(1, 8):
                     # the stored text holds a line that only LOOKS like the terminator (padded); the received text is what a reader
                     # that mistook it for the terminator would return
